@@ -82,12 +82,20 @@ theorem sunion_served_locally (isLeader fwd : Bool) :
     routeOf isLeader fwd [b "sunion", b "s1", b "s2"] = some .localExec := by
   cases isLeader <;> cases fwd <;> decide +kernel
 
-/-- … and its handler changes the serving node's dataset (it adds the other operands' members into one
-    of the stored operands): a follower that serves it no longer agrees with the other replicas -/
-theorem sunion_local_mutation_witness :
+/-- … and its handler leaves the serving node's dataset exactly as it was — on the leader and on a follower, for
+    every argument vector and every state: the union is built in a new set from what one GetValues call served.
+    (Was `sunion_local_mutation_witness`, a follower that no longer agreed with the other replicas after serving
+    SUNION s1 s2 — class `read-served-locally-mutates-that-replica`; repaired upstream.) -/
+theorem sunion_served_locally_changes_nothing (role : Role) (c : Ctx) (cmd : List Bytes) (s : State) :
+    (runCl role c (handleSUnion false c cmd) s).1 = s :=
+  runCl_readOnly_state role _ c s (handleSUnion_ro c cmd)
+
+/-- the former witness replayed: the follower that serves SUNION s1 s2 answers both members and keeps its dataset -/
+theorem sunion_local_replay :
     let s : State := { dbs := [(0, ⟨[(b "s1", ⟨.set 0 [b "a"], none⟩), (b "s2", ⟨.set 0 [b "b"], none⟩)], []⟩)], mem := 0 }
     let c : Ctx := { db := 0, now := 1000, conn := some 1 }
-    (runCl .follower c (handleSUnion false c [b "sunion", b "s1", b "s2"]) s).1 ≠ s := by
+    runCl .follower c (handleSUnion false c [b "sunion", b "s1", b "s2"]) s =
+      (s, .done (.okPerm (b "*2\r\n") [b "$1\r\na\r\n", b "$1\r\nb\r\n"])) := by
   decide
 
 /-! ### the replicated state machine (internal/raft/fsm.go:55) -/
@@ -136,8 +144,9 @@ theorem progOf_env_free (c c' : Ctx) (cmd : List Bytes) (hd : toLower (cmd.headD
 /-- **Determinism of the state machine, where it holds.** Two nodes whose environments differ in the
     resolution of Go map iteration order and in what math/rand draws (and in anything else but the clock
     reading and the configuration) compute the same state and the same answer for every entry whose
-    command is outside `envSensitive` (SET with options, EXPIRE/PEXPIRE, GETEX, TTL/PTTL, SPOP, SINTER*,
-    SUNION*): the handler models of all other commands never read their context. -/
+    command is outside `envSensitive` (SET with options, EXPIRE/PEXPIRE, GETEX, TTL/PTTL, SPOP, SINTER,
+    SINTERCARD and the sorted-set commands that break ties by map order): the handler models of all other
+    commands — SUNIONSTORE, SINTERSTORE and SDIFFSTORE among them — never read their context. -/
 theorem apply_deterministic_partial (role : Role) (env env' : Ctx) (s : State) (e : LogEntry)
     (hnow : env.now = env'.now) (hcfg : env.cfg = env'.cfg)
     (hdet : toLower (e.cmd.headD []) ∉ envSensitive) :
@@ -232,6 +241,30 @@ example :
   · exact Or.inl (by decide)
   · exact Or.inl (by decide)
   · exact Or.inl (by decide)
+
+/-- **the set STORE forms are replicated deterministically** (were class `effect-depends-on-map-iteration-order`:
+    SUNIONSTORE added the other operands' members into whichever operand a node's map iteration yielded first and
+    stored that pointer, SINTERSTORE stopped at whichever absent or wrong-typed operand it met first; repaired
+    upstream): two nodes that differ in map order, random source and anything but clock and configuration apply
+    a SUNIONSTORE / SINTERSTORE / SDIFFSTORE entry with the same effect and the same answer -/
+theorem set_store_forms_deterministic (role : Role) (env env' : Ctx) (s : State) (e : LogEntry)
+    (hnow : env.now = env'.now) (hcfg : env.cfg = env'.cfg)
+    (hw : toLower (e.cmd.headD []) = b "sunionstore" ∨ toLower (e.cmd.headD []) = b "sinterstore" ∨
+          toLower (e.cmd.headD []) = b "sdiffstore" ∨ toLower (e.cmd.headD []) = b "sunion") :
+    applyEntry role env s e = applyEntry role env' s e := by
+  apply apply_deterministic_partial role env env' s e hnow hcfg
+  rcases hw with h | h | h | h <;> rw [h] <;> decide
+
+/-- the former witness of the class replayed: the log SADD k1 a; SADD k2 b; SADD k3 c; SUNIONSTORE k4 k1 k2 k3
+    leaves the same dataset — operands untouched, k4 the union — on nodes that walk maps in any of the orders -/
+theorem sunionstore_replicas_agree_replay :
+    let log : List LogEntry := [{ db := 0, cmd := [b "sadd", b "k1", b "a"] }, { db := 0, cmd := [b "sadd", b "k2", b "b"] },
+      { db := 0, cmd := [b "sadd", b "k3", b "c"] }, { db := 0, cmd := [b "sunionstore", b "k4", b "k1", b "k2", b "k3"] }]
+    ∀ o, o < 6 → (replayLog .follower { db := 0, now := 1000, order := o } { dbs := [], mem := 0 } log).lookup 0 (b "k1")
+        = some ⟨.set 0 [b "a"], none⟩ ∧
+      (replayLog .follower { db := 0, now := 1000, order := o } { dbs := [], mem := 0 } log).lookup 0 (b "k4")
+        = some ⟨.set 0 [b "a", b "b", b "c"], none⟩ := by
+  decide +kernel
 
 /-- the full statement is false: SPOP takes whatever the node's random source names -/
 theorem spop_diverges_witness :
